@@ -277,8 +277,16 @@ def rule_e(ctx: Ctx) -> None:
         ok = any(t.endswith('context.fill_missing') and lab == 'T' for t, lab in gs)
         ctx.ob(rule, 'attributes that are absent and unconstrained are added only when fill_missing is requested', f.loc(c), ok,
                '' if ok else f'guards {sorted(gs)}', key=f'fill|{text(c)[:40]}')
+        # what is filled in is an attribute that may occur: the generator excludes the wildcard (key None), the attributes that are present and
+        # the prohibited ones
+        if ok and c.args and isinstance(c.args[0], ast.GeneratorExp):
+            conds = ' and '.join(text(i) for gen in c.args[0].generators for i in gen.ifs)
+            okp = "'prohibited'" in conds and '.use' in conds
+            ctx.ob(rule, 'fill_missing never reports a prohibited attribute', f.loc(c), okp,
+                   '' if okp else f'the filter `{conds[:80]}` lets use="prohibited" attributes through: decode(\'<root/>\', fill_missing=True) reports `@a: None` for an attribute the '
+                   'restriction prohibits', key=f'fill|prohibited|{text(c)[:30]}')
     ctx.floor(rule, 'result extensions after the attribute loop', n_out, 2)
-    ctx.explain('C03.e: result extensions outside the attribute loop are control dependent on context.fill_missing.')
+    ctx.explain('C03.e: result extensions outside the attribute loop are control dependent on context.fill_missing and skip prohibited attributes.')
 
 
 def rule_f(ctx: Ctx) -> None:
